@@ -1,6 +1,7 @@
 package main
 
 import (
+	"sort"
 	"fmt"
 	"go/ast"
 	"go/types"
@@ -343,7 +344,10 @@ func sexprEnd(s string) int {
 
 // specDefsText emits the definitions needed (transitively) by the used set, in order.
 func (e *Engine) specDefsText(used map[string]bool, opaque map[string]bool) string {
+	// deterministic order (dependencies first, ties by name), independent of the order in which
+	// the engine happened to translate the spec functions
 	need := map[string]bool{}
+	var order []string
 	var visit func(n string)
 	visit = func(n string) {
 		if need[n] {
@@ -351,19 +355,24 @@ func (e *Engine) specDefsText(used map[string]bool, opaque map[string]bool) stri
 		}
 		need[n] = true
 		if d, ok := e.specDefs[n]; ok {
-			for _, dep := range d.Deps {
+			deps := append([]string{}, d.Deps...)
+			sort.Strings(deps)
+			for _, dep := range deps {
 				visit(dep)
 			}
+			order = append(order, n)
 		}
 	}
+	var roots []string
 	for n := range used {
+		roots = append(roots, n)
+	}
+	sort.Strings(roots)
+	for _, n := range roots {
 		visit(n)
 	}
 	var sb strings.Builder
-	for _, n := range e.specOrder {
-		if !need[n] {
-			continue
-		}
+	for _, n := range order {
 		d := e.specDefs[n]
 		var ps []string
 		var sorts []string
